@@ -446,6 +446,11 @@ type diskState struct {
 	seen    map[[8]byte]struct{}
 	idx     uint64
 	t0      time.Time
+	// exhausted counts cases that ran into the step cap; after a dozen of them the
+	// cap is divided by capDiv for the rest of the shard (a tree with a runaway loop
+	// on a common path would otherwise spend the whole budget spinning).
+	exhausted int
+	capDiv    uint64
 }
 
 func mmapJournal(path string) []byte {
@@ -596,6 +601,9 @@ func (s *diskState) one(entry string, it *corpusItem, in spec.Info, enumerated b
 	if s.cfg.Prop == "C09" {
 		stepCap = 500_000_000 + 4000*(uint64(len(data))+S)
 	}
+	if s.capDiv > 1 {
+		stepCap /= s.capDiv
+	}
 	verifrt.ResetClock()
 	verifrt.ResetOp()
 	verifrt.StepCap = stepCap
@@ -657,6 +665,13 @@ func (s *diskState) one(entry string, it *corpusItem, in spec.Info, enumerated b
 			site, val uint64
 		}
 		fmt.Sscanf(or.Panic, "sentinel %s site=%d val=%d", &sv.kind, &sv.site, &sv.val)
+		if sv.kind == "step" {
+			s.exhausted++
+			if s.exhausted == 12 {
+				s.capDiv = 25
+				res.Probes["step cap divided by 25 after 12 exhausted cases in this shard"]++
+			}
+		}
 		sig := fmt.Sprintf("budget-%s: site %d", sv.kind, sv.site)
 		record(sig, "budget-"+sv.kind, fmt.Sprintf("%s (cap steps=%d single-alloc=%d); declared S=%d len=%d", or.Panic, stepCap, B, S, len(data)))
 		if f := s.find[sig]; f != nil {
